@@ -29,7 +29,8 @@ def contig(n, fam='CONTIG'):
         for hi in range(lo, n):
             w = hi - lo + 1
             for k in kinds_for(w):
-                out.append(Field([(lo, w)], k, family=fam, qualified=(k == 'u' and (lo + 2 * hi) % 7 == 3)))
+                out.append(Field([(lo, w)], k, family=fam, qualified=(k == 'u' and (lo + 2 * hi) % 7 == 3),
+                                 form=('list1' if (3 * lo + hi) % 11 == 5 else 'auto')))
     return out
 
 
